@@ -9,6 +9,8 @@ Protocol (one op per line, all numbers non-negative decimal integers; see lean/O
                                     stream / a closed stream; none: silent = True again)
   label <hex code points>          (the `operation` text passed to the following consume calls; default "op")
   an amount (cost / n) may be written b0 | b1 (False / True) or s<natural> (an instance of an int subclass)
+  set id atp|gtp|nadh|max_atp|max_gtp|max_nadh|max_debt v   (the caller assigns a public attribute of the store; observation
+                                    `ok | <store>`)
   race k <call A> / <call B>       (two overlapping calls: A is preempted just before its k-th acquisition of a store lock and B
                                     runs to completion there - B wins the race for the lock; calls are consume/regen/transfer/
                                     convert/dorm/wake lines; observation `<ret A> <ret B> | <every store>`)
@@ -36,6 +38,7 @@ STATES = ["normal", "conserving", "starving", "feasting", "dormant"]
 EXC = [RuntimeError, ValueError, KeyError]
 H310, P1030 = 10 ** 310, 2 ** 1030           # beyond the range of a C double (about 1.8e308 = 2**1024)
 HUGE = [H310, H310, P1030, 10 ** 400 + 7, 2 ** 1100, 10 ** 30, 2 ** 80 + 1]
+FIELDS = ("atp", "gtp", "nadh", "max_atp", "max_gtp", "max_nadh", "max_debt")
 RACE_CALLS = ("consume", "regen", "transfer", "convert", "dorm", "wake", "interest", "rst")
 FLOAT_MAX = 1.7976931348623157e308
 
@@ -152,14 +155,14 @@ class C04(Prop):
     extractors = ["E5-metabolism", "py2lean-metabolism"]
     quick_budget = 4000
     thorough_budget = 60000
-    quick_deadline_s = 120
+    quick_deadline_s = 200      # a guard for loaded machines only: the quick tier needs ~25 s of harness time on an idle one
     thorough_deadline_s = 900
     all_branches = (
         [f"consume:{b}:{c}" for c in CURS for b in ("gated-starving", "gated-dormant", "direct", "debt", "refused")]
         + ["consume:topup:atp", "consume:topup-short>debt:atp", "consume:topup-short>refused:atp",
            "regen:pay", "regen:nopay", "regen:clamp", "regen:fit", "transfer:ok", "transfer:short", "transfer:self",
            "convert:pos", "convert:zero", "convert:neg", "dorm", "wake", "interest:pos", "interest:zero", "rst",
-           "cb:called", "cb:raised", "tick:pass", "tick:noloop", "race"])
+           "cb:called", "cb:raised", "tick:pass", "tick:noloop", "race", "set"])
     assumptions = [
         "amounts, costs, priorities and configuration values are non-negative Python ints (the property's quantifier)",
         "silent=True; the background thread of a store with regeneration_rate > 0 is captured, not started: single passes of "
@@ -338,6 +341,9 @@ class C04(Prop):
                 except Exception:  # noqa
                     pass
             return None, []
+        if op == "set":
+            setattr(stores[int(t[1])], t[2], int(t[3]))
+            return None, [int(t[1])]
         if op == "loud":
             stores[int(t[1])].silent = t[2] == "none"
             self._console_kind = None if t[2] == "none" else t[2]
@@ -426,6 +432,8 @@ class C04(Prop):
             quiet = not with_obs and not any(l.startswith("loud") for l in lines)
             if quiet and rng.random() < 0.35:
                 mix += ["race"] * 2
+            if rng.random() < 0.12:           # public attributes re-assigned after construction
+                mix += ["set"] * 2
 
             def call_line(i, s, inflow_ok):
                 """a call for one side of a race"""
@@ -459,7 +467,7 @@ class C04(Prop):
                         for _ in range(reps - 1):
                             lines.append(line)
                             try:
-                                with _Watchdog(6):
+                                with _Watchdog(10):
                                     self._apply(stores, line)
                             except (Exception, _Hang):
                                 pass
@@ -478,6 +486,10 @@ class C04(Prop):
                 elif op == "tick":
                     with_loop = [k_ for k_, s_ in enumerate(stores) if self.bg.has_loop(s_)]
                     line = f"tick {rng.choice(with_loop) if with_loop and rng.random() < 0.9 else i}"
+                elif op == "set":
+                    fld = rng.choice(FIELDS)
+                    cur_v = self._pub(s, fld)
+                    line = f"set {i} {fld} {max(0, rng.choice([0, 1, 5, 50, cur_v // 2, cur_v + 5, cur_v, max(s.get_debt() - 1, 0), s.get_debt()]))}"
                 elif op == "race":
                     j = rng.choice([i, i, rng.randrange(len(stores))])
                     line = f"race {rng.choice([1, 1, 2])} {call_line(i, s, not no_inflow)} / {call_line(j, stores[j], not no_inflow)}"
@@ -498,7 +510,7 @@ class C04(Prop):
                 lines.append(line)
                 k += 1
                 try:
-                    with _Watchdog(6):
+                    with _Watchdog(10):
                         self._apply(stores, line)
                 except (Exception, _Hang):
                     pass
@@ -508,7 +520,7 @@ class C04(Prop):
                                   "convert 0 1.5", "interest 12", "obs 0 nth x 0", "obs 5 always 0", "obs 0 state purple 0",
                                   "obs 0", "tick", "tick 7", "tick x", "newr 1 2 3 4 1 10 1 0", "newr 1 2 3 4 1 10 1",
                                   "loud 0 latin1", "loud 9 ascii", "loud 0", "label", "label zz", "label 110000",
-                                  "race 1 consume 0 1 atp 0 0", "race 0 dorm 0 / wake 0", "race x dorm 0 / wake 0",
+                                  "set 0 debt 3", "set 0 atp", "set 9 atp 1", "set 0 atp x", "race 1 consume 0 1 atp 0 0", "race 0 dorm 0 / wake 0", "race x dorm 0 / wake 0",
                                   "race 1 dorm 0 / tick 0", "race 1 dorm 0 / wake 9", "race 2 bogus / wake 0"])
                 lines.insert(rng.randrange(2, len(lines) + 1), bad)
             yield {"lines": lines, "note": "random" + (" no-inflow" if no_inflow else "") + (" big" if big else "")
@@ -651,6 +663,8 @@ class C04(Prop):
                     or (len(r) == 2 and r[0] == "always" and _isnat(r[1])))
         if t[0] == "loud":
             return len(t) == 3 and _isnat(t[1]) and t[2] in CONSOLES
+        if t[0] == "set":
+            return len(t) == 4 and _isnat(t[1]) and t[2] in FIELDS and _isnat(t[3])
         if t[0] == "race":
             if len(t) < 5 or not _isnat(t[1]) or int(t[1]) == 0 or t.count("/") != 1:
                 return False
@@ -714,6 +728,13 @@ class C04(Prop):
                     stores[i].on_state_change = None if t[2] == "none" else _Observer(i, t[2:], cblog)
                     obs.append("ok")
                 continue
+            if t[0] == "set":
+                if int(t[1]) >= len(stores):
+                    obs.append("no-such-store")
+                else:
+                    self._apply(stores, line)
+                    obs.append("ok | " + self._show_store(stores[int(t[1])]))
+                continue
             if t[0] == "race":
                 del cblog[:]
                 k_ = t.index("/")
@@ -736,7 +757,7 @@ class C04(Prop):
             if self._console_kind is not None:
                 sys.stdout = _console(self._console_kind)
             try:
-                with _Watchdog(6):
+                with _Watchdog(10):
                     r, _ = self._apply(stores, line)
                 ret = self._show_ret(r)
             except _Hang:
@@ -775,7 +796,7 @@ class C04(Prop):
             th = threading.Thread(target=run_b, daemon=True)
             st["thread"] = th
             th.start()
-            th.join(3 if _Watchdog.hangs == 0 else 0.75)
+            th.join(10 if _Watchdog.hangs == 0 else 0.75)   # a starved thread on a loaded machine is not a deadlock
             if th.is_alive():
                 _Watchdog.hangs += 1
                 st["rb"] = "deadlock"
@@ -828,7 +849,7 @@ class C04(Prop):
             if not st["fired"]:
                 fire()
             elif st["thread"] is not None and st["thread"].is_alive():
-                st["thread"].join(3)
+                st["thread"].join(10)
         finally:
             for s_, name, v in swapped:
                 setattr(s_, name, v)
@@ -863,6 +884,20 @@ class C04(Prop):
                             "rate": Fraction(int(t[7]), int(t[8])) if t[0] == "newr" else Fraction(0)})
                 prev.append((a, g, n, 0, 0))
                 init_total += a + g + n + md
+                continue
+            if t[0] == "set":
+                # the caller re-configures the store: from here on the limits / capacities are the assigned ones (a limit set
+                # below the outstanding debt cannot be met by the store: the excess is the caller's), balances are what was set
+                i = int(t[1])
+                now_ = parse_store(o.split("|")[1])
+                if t[2] == "max_debt":
+                    cfg[i]["max_debt"] = int(t[3])
+                    cfg[i]["accrued"] = max(0, now_[3] - int(t[3]))
+                elif t[2].startswith("max_"):
+                    cfg[i]["cap"][["max_atp", "max_gtp", "max_nadh"].index(t[2])] = int(t[3])
+                else:
+                    inflow = True
+                prev[i] = now_
                 continue
             if t[0] == "race":
                 # two overlapping calls.  The text, on the pair: no call raises or hangs; every balance stays >= 0 and debt within
@@ -931,7 +966,7 @@ class C04(Prop):
                 break
             before = {i: prev[i] for i in ids}
             if ret == "hang":
-                out.append(Violation("every_operation_returns", "the call returns", "the call did not return (it was ended after 6 s)", idx))
+                out.append(Violation("every_operation_returns", "the call returns", "the call did not return (it was ended by the watchdog)", idx))
             # No operation raises (an exception that the on_state_change observer itself raised is the observer's).
             if ret.startswith("raise:") and ret[6:] not in raised_by_observer:
                 out.append(Violation("no_operation_raises", "a normal return", ret, idx))
